@@ -9,7 +9,8 @@ EXTENDS Schema
 \* inside a fixed struct, limited array, dynamic structs ending unaligned and
 \* ending in an optional, 8-aligned dynamic struct, externally sized arrays,
 \* unlimited structs, unions of alignment 4 and 8 (one with a struct arm that
-\* holds an optional), enums without an enumerator equal to 1, typedefs.
+\* holds an optional, one whose largest arm is not the most aligned one), enums
+\* without an enumerator equal to 1, typedefs.
 InnerDef == <<
     (* 1  E57  *) EnumDef(<<5, 7>>),
     (* 2  E012 *) EnumDef(<<0, 1, 2>>),
@@ -29,7 +30,10 @@ InnerDef == <<
     (* 16 U8   *) UnionDef(<<Arm(1, Int(8)), Arm(2, Int(1)), Arm(3, Ref(7))>>),
     (* 17 T2   *) TypedefDef(Int(2)),
     (* 18 TS4  *) TypedefDef(Ref(5)),
-    (* 19 SE   *) StructDef(<<Opt(Ref(1)), Plain(Ref(2))>>)
+    (* 19 SE   *) StructDef(<<Opt(Ref(1)), Plain(Ref(2))>>),
+    (* 20 S12  *) StructDef(<<Plain(Int(4)), Plain(Int(4)), Plain(Int(4))>>),
+    \* an 8-aligned union whose LARGEST arm is 4-aligned and 12 bytes long (size 24, not 20 or 16)
+    (* 21 U8b  *) UnionDef(<<Arm(1, Int(8)), Arm(2, Ref(20))>>)
 >>
 
 \* a smaller environment for the quick exhaustive tier
